@@ -28,7 +28,7 @@
 From Coq Require Import NArith List Bool. Import ListNotations.
 From LunaLib Require Import Netlist Machine.
 From LunaModel Require Import ConstGen DescSpec DescSpec_proofs DescRom DescRom_proofs DescCommon DescBlock DescBlock_proofs
-                              DescDist DescDist_proofs.
+                              DescDist DescDist_proofs DescMux DescMux_proofs.
 Open Scope N_scope.
 
 (* (1) Protocol level.  A host reading a present descriptor in max-packet-size pieces from a responder that answers
@@ -103,6 +103,43 @@ Theorem C09_distributed_handler : forall c mps, coll_okb c = true -> dist_okb c 
 Proof. exact dist_refines. Qed.
 Print Assumptions C09_distributed_handler.
 
+(* (4) GetDescriptorHandlerMux (block-ROM handler for the fixed descriptors cF + distributed handler for the runtime
+       descriptors cR, disjoint (type, index) keys; stall latches as repaired by findings/C09-mux-stall-latch.diff) is
+       cycle-for-cycle the specification machine of the UNION collection (resp_mux / legal_mux; C09_mux_union): every
+       request for an existing descriptor is answered with its bytes by exactly one handler and never STALLed, whatever
+       the previous request was; a request for an absent descriptor gets one stall pulse and no data.  Hypotheses: the
+       history is legal for the union specification and for the two handlers' own specification machines (a new request
+       only once both handlers are idle -- the ROM handler needs up to two cycles to stall a request that is not its own). *)
+Theorem C09_mux_handler : forall cF cR mps, coll_okb cF = true -> coll_okb cR = true -> dist_okb cR = true ->
+  disjointb cF cR = true -> 1 <= mps /\ mps < 65536 -> forall tr,
+  env_ok sstate (s_step (resp_mux cF cR mps) (mx_lat cF cR)) (s_env (legal_mux cF cR)) SIdle tr = true ->
+  env_ok sstate (s_step (resp_of cF mps) (bk_lat cF)) (s_env (req_legal cF)) SIdle tr = true ->
+  env_ok sstate (s_step (resp_of cR mps) (ds_lat cR)) (s_env (req_legal cR)) SIdle tr = true ->
+  let c := {| x_fixed := cF; x_runtime := cR; x_mps := mps |} in
+  run (mxm_step c) (mxm_init c) tr = run (s_step (resp_mux cF cR mps) (mx_lat cF cR)) SIdle tr.
+Proof. exact mux_refines. Qed.
+Print Assumptions C09_mux_handler.
+
+Theorem C09_mux_union : forall cF cR cU mps, (forall ty ix, find_desc cU ty ix = find2 cF cR ty ix) ->
+  forall q, resp_mux cF cR mps q = resp_of cU mps q /\ legal_mux cF cR q = req_legal cU q.
+Proof. exact resp_mux_union. Qed.
+Print Assumptions C09_mux_union.
+
+(* the same statement one level up: the mux over the two handlers' specification machines *)
+Theorem C09_mux_of_specs : forall cF cR mps, disjoint_keys cF cR ->
+  (forall ty ix d, find_desc cF ty ix = Some d -> bytes_ok d) -> (forall ty ix d, find_desc cR ty ix = Some d -> bytes_ok d) ->
+  forall tr,
+  env_ok sstate (s_step (resp_mux cF cR mps) (mx_lat cF cR)) (s_env (legal_mux cF cR)) SIdle tr = true ->
+  env_ok sstate (s_step (resp_of cF mps) (bk_lat cF)) (s_env (req_legal cF)) SIdle tr = true ->
+  env_ok sstate (s_step (resp_of cR mps) (ds_lat cR)) (s_env (req_legal cR)) SIdle tr = true ->
+  run (mx_step (s_step (resp_of cF mps) (bk_lat cF)) (s_step (resp_of cR mps) (ds_lat cR))) (SIdle, SIdle, (false, false)) tr
+  = run (s_step (resp_mux cF cR mps) (mx_lat cF cR)) SIdle tr.
+Proof.
+  intros cF cR mps Hd HF HR tr EU EB ED. apply (mux_spec_from cF cR mps Hd HF HR); try exact I; try assumption.
+  left. repeat split; try reflexivity.
+Qed.
+Print Assumptions C09_mux_of_specs.
+
 (* ---- sanity / non-vacuity ---- *)
 Definition ex_coll : dcoll := coll_of_triples [(1, 0, [5; 1; 7; 8; 9]); (3, 2, [8; 3; 1; 2; 3; 4; 5; 6]); (3, 0, [4; 3; 9; 4])].
 
@@ -135,4 +172,26 @@ Example C09_ex_run :
   env_ok sstate (s_step (resp_of ex_coll 4) (ds_lat ex_coll)) (s_env (req_legal ex_coll)) SIdle ex_trace = true /\
   run (ds_step (dist_gens ex_coll) 4) (ds_init (dist_gens ex_coll)) ex_trace =
     [0; 0; o_beat 9 true true; o_beat 9 true true; o_beat 9 true true; o_beat 9 true true; 0; 0; o_zlp; 0; 0; 0; 0].
+Proof. vm_compute. repeat split. Qed.
+
+(* the sequence that the unrepaired mux gets wrong (findings/C09-mux-stall-latch.json): a runtime descriptor (type 3,
+   index 2, 8 bytes, behind the distributed handler), then a ROM descriptor (type 1, index 0): no stall in the second
+   request's start cycle, the ROM descriptor's bytes follow *)
+Definition ex_mux : mux_cfg := {| x_fixed := coll_of_triples [(1, 0, [5; 1; 7; 8; 9]); (3, 0, [6; 3; 9; 4; 7; 4])];
+                                  x_runtime := coll_of_triples [(3, 2, [8; 3; 1; 2; 3; 4; 5; 6])]; x_mps := 4 |}.
+Definition ex_mux_trace : list N :=
+  [mk_in 770 255 true 4 true; mk_in 770 255 false 4 true; mk_in 770 255 false 4 true; mk_in 770 255 false 4 true;
+   mk_in 770 255 false 4 true; mk_in 770 255 false 4 true; mk_in 770 255 false 4 true; 0;
+   mk_in 256 2 true 0 true; mk_in 256 2 false 0 true; mk_in 256 2 false 0 true; mk_in 256 2 false 0 true;
+   mk_in 256 2 false 0 true; mk_in 256 2 false 0 true; 0].
+Example C09_ex_mux_run :
+  coll_okb (x_fixed ex_mux) = true /\ coll_okb (x_runtime ex_mux) = true /\ dist_okb (x_runtime ex_mux) = true /\
+  disjointb (x_fixed ex_mux) (x_runtime ex_mux) = true /\
+  env_ok sstate (s_step (resp_mux (x_fixed ex_mux) (x_runtime ex_mux) 4) (mx_lat (x_fixed ex_mux) (x_runtime ex_mux)))
+         (s_env (legal_mux (x_fixed ex_mux) (x_runtime ex_mux))) SIdle ex_mux_trace = true /\
+  env_ok sstate (s_step (resp_of (x_fixed ex_mux) 4) (bk_lat (x_fixed ex_mux))) (s_env (req_legal (x_fixed ex_mux))) SIdle ex_mux_trace = true /\
+  env_ok sstate (s_step (resp_of (x_runtime ex_mux) 4) (ds_lat (x_runtime ex_mux))) (s_env (req_legal (x_runtime ex_mux))) SIdle ex_mux_trace = true /\
+  run (mxm_step ex_mux) (mxm_init ex_mux) ex_mux_trace =
+    [0; 0; o_beat 3 true false; o_beat 4 false false; o_beat 5 false false; o_beat 6 false true; 0; 0;
+     0; 0; 0; 0; o_beat 5 true false; o_beat 1 false true; 0].
 Proof. vm_compute. repeat split. Qed.
